@@ -139,6 +139,13 @@ Theorem C15_weights_roundtrip :
 Proof. exact weights_roundtrip. Qed.
 Print Assumptions C15_weights_roundtrip.
 
+Theorem C15_weights_roundtrip_history :
+  forall (P : Type) (p0 : P) d (decs : list (WDec P)),
+  Forall (fun dec => map (w_mode P) (snd dec) = seq 0 d) decs ->
+  map (fun dec => from_weights P p0 (map (w_modes P) (fst dec)) d (to_weights P dec)) decs = decs.
+Proof. exact weights_roundtrip_history. Qed.
+Print Assumptions C15_weights_roundtrip_history.
+
 Theorem C15_weights_length :
   forall (P : Type) d (dec : WDec P),
   map (w_modes P) (fst dec) = schedule d -> map (w_mode P) (snd dec) = seq 0 d ->
